@@ -1,6 +1,7 @@
 package pow
 
 import (
+	"sync"
 	"context"
 	"encoding/binary"
 	"encoding/json"
@@ -30,11 +31,15 @@ func digestFacts(data []byte) M {
 
 // mineChild runs one Mine call inside a child process so that a crash of the
 // process is an observation, not the end of the driver.
-func mineChild(data []byte, target float64, workers int, prior interface{}) M {
+func mineChild(data []byte, target float64, workers int, prior interface{}, conc ...interface{}) M {
 	if prior == nil {
 		prior = []interface{}{}
 	}
-	spec, _ := json.Marshal(M{"data": vInts(data), "target": vFloat(target), "workers": workers, "prior": prior})
+	sp := M{"data": vInts(data), "target": vFloat(target), "workers": workers, "prior": prior}
+	if len(conc) > 0 && conc[0] != nil {
+		sp["conc"] = conc[0]
+	}
+	spec, _ := json.Marshal(sp)
 	cmd := exec.Command(os.Args[0], "-test.run", "^TestVerifChild$", "-test.count=1")
 	cmd.Env = append(os.Environ(), "VERIF_CHILD_IN="+string(spec))
 	done := make(chan struct{})
@@ -88,7 +93,38 @@ func TestVerifChild(t *testing.T) {
 		}
 	}
 	copy(buf, data)
+	// other Mine calls on the SAME Worker (other data, same target) may run at the same time
+	stop := make(chan struct{})
+	var bg sync.WaitGroup
+	if cc, ok := spec["conc"].([]interface{}); ok && len(cc) > 0 {
+		for _, x := range cc {
+			other := vBytes(x)
+			bg.Add(1)
+			go func() {
+				defer bg.Done()
+				for {
+					select {
+					case <-stop:
+						return
+					default:
+						w.Mine(context.Background(), other, target)
+					}
+				}
+			}()
+		}
+	}
 	nonce, err := w.Mine(context.Background(), buf, target)
+	if spec["conc"] != nil { // repeat while the others are busy; the first call that misses the target is the one reported
+		for rep := 0; rep < 40 && err == nil; rep++ {
+			m := append(append([]byte{}, data...), vBytes(toIface(nonce8(nonce)))...)
+			if Score(m) < target {
+				break
+			}
+			nonce, err = w.Mine(context.Background(), buf, target)
+		}
+	}
+	close(stop)
+	bg.Wait()
 	out := M{"ok": err == nil, "err": fmt.Sprint(err), "nonce": nonce8(nonce), "panic": "", "data_intact": string(buf) == string(data)}
 	msg := append(append([]byte{}, data...), vBytes(toIface(nonce8(nonce)))...)
 	out["score"] = vFloat(Score(msg))
@@ -119,7 +155,7 @@ func runF(op string, in M) (M, M) {
 		return M{"score": vFloat(s), "panic": p}, digestFacts(msg[:len(msg)-8])
 	case "pow.Mine":
 		data := vBytes(in["data"])
-		out := mineChild(data, vFloatOf(in["target"]), vIntOf(in["workers"]), in["prior"])
+		out := mineChild(data, vFloatOf(in["target"]), vIntOf(in["workers"]), in["prior"], in["conc"])
 		return out, digestFacts(data)
 	case "pow.required": // white box: the number of zeros Mine will look for
 		ln := vIntOf(in["len"])
@@ -241,6 +277,12 @@ func TestVerifDriver(t *testing.T) {
 			mineIn["prior"] = [][]int{vInts(p1)}
 		}
 		emit("pow.Mine", mineIn)
+		if k%6 == 2 && len(data) > 0 { // the same Worker mines other data at the same time (attainable targets only)
+			o1, o2 := make([]byte, len(data)), make([]byte, len(data)+3)
+			r.Read(o1)
+			r.Read(o2)
+			emit("pow.Mine", M{"data": vInts(data), "target": vFloat(target), "workers": 1 + r.Intn(3), "conc": [][]int{vInts(o1), vInts(o2)}})
+		}
 		if k%8 == 5 { // targets that every nonce meets: zero and negative
 			emit("pow.Mine", M{"data": vInts(data), "target": vFloat([]float64{0, -1, -1e-300, -1e300}[r.Intn(4)]), "workers": workers})
 		}
